@@ -10,7 +10,7 @@ namespace Sentinel
 def checkerFor (prop : String) : Option (List (String × String) → Verdict) :=
   match prop with
   | "C02" => some DriverC02.checkCase
-  | "C01" | "C03" | "C04" | "C05" | "C06" | "C07" | "C08" | "C09" => some DriverWorld.checkCase
+  | "C01" | "C03" | "C04" | "C05" | "C06" | "C07" | "C08" | "C09" | "C11" => some DriverWorld.checkCase
   | "C10" => some DriverC10.checkCase
   | "C13" => some DriverC13.checkCase
   | _ => none
